@@ -185,7 +185,12 @@ def op_get(w, res, uri, hist, has=False):
     hasr = None
     try:
         if has:
-            hasr = lk.has_template(uri)
+            try:
+                hasr = lk.has_template(uri)
+            except ex.TemplateLookupException as e:
+                # has_template() answers True/False; it never passes a lookup failure on (missing and vanished files alike)
+                res.violate("has-template-raises", "%s raised %s: %s instead of returning False" % (what, type(e).__name__, e), replay_case=hist)
+                raise
             if hasr:
                 t = lk.get_template(uri)
         else:
